@@ -401,3 +401,91 @@ func (g *gen) runAttempts() {
 	}
 	g.drop(warm)
 }
+
+// L. settings toggled between exchanges on LIVE connections: one client per stack; before every
+// exchange DisableCompression / AutoDecompression / auto-decode are set to that exchange's values, the
+// h2 connection, the QUIC connection and the idle h1 connections stay.  Every ordered pair of
+// (DisableCompression, AutoDecompression) settings x codings: an exchange under A, then one under B.
+func (g *gen) runLive() {
+	r, rng := g.r, g.rng.Fork()
+	const bin = "application/octet-stream"
+	p := payload{"text900", textish(rng, 900)}
+	var sets []cfg
+	for _, d := range []bool{false, true} {
+		for _, a := range []bool{false, true} {
+			sets = append(sets, cfg{Disable: d, Auto: a})
+		}
+	}
+	cods := []coding{codings[0], codings[1], codings[3], codings[4], codings[10]}
+	if !r.Quick() {
+		cods = append(cods, codings[2], codings[6], codings[15], codings[20])
+	}
+	warm := g.newScript(payload{"warm", []byte("warm-up\n")}, codings[4], true, bin)
+	n := 0
+	step := func(key string, cf cfg, k reqKind, s *script) {
+		st := strings.SplitN(key, "/", 2)[0]
+		if rng.Chance(30) {
+			cf.Text = true // auto-decode toggled as well (octet-stream / ASCII: nothing to transcode)
+		}
+		x := exchange{Stack: st, Cfg: cf, Req: k, S: s, Pat: readPats[n%len(readPats)], Live: true, LiveKey: key}
+		g.w.liveClient(key, cf) // creates the client on first use and records what it was opened under
+		x.Opened, x.Nth = g.w.live[key].opened, g.w.live[key].n
+		x.Opened.Text = false
+		g.w.live[key].n++
+		g.one(x)
+		r.Count("live.client=" + key)
+		n++
+	}
+	// two clients per stack: one whose connection is opened with everything off, one with everything on
+	for _, st := range stacks {
+		for variant, order := range [][]int{{0, 1, 2, 3}, {3, 2, 1, 0}} {
+			key := fmt.Sprintf("%s/opened-%s", st, sets[order[0]].name())
+			for _, ai := range order {
+				for _, bi := range order {
+					a, b := sets[ai], sets[bi]
+					for ci, c := range cods {
+						if r.Quick() && variant == 1 && ci%2 == 1 {
+							continue
+						}
+						s := g.newScript(p, c, (n+ci)%2 == 0, bin)
+						step(key, a, reqKinds[0], warm)
+						k := reqKinds[0]
+						if (n+ci)%5 == 0 {
+							k = reqKinds[1]
+						}
+						step(key, b, k, s)
+						r.Count(fmt.Sprintf("live.transition=%s->%s", a.name(), b.name()))
+						g.drop(s)
+					}
+				}
+			}
+		}
+	}
+	g.drop(warm)
+}
+
+// M. the HTTP/3 request-stream API (internal/http3: OpenRequestStream / SendRequestHeader / ReadResponse,
+// then the body from res.Body or from RequestStream.Read).  Nothing outside internal/http3 uses it and a
+// user of the library cannot reach it (internal package); the harness can, so both ways of reading are
+// held to the same verdict as a round trip.
+func (g *gen) runH3Stream() {
+	r, rng := g.r, g.rng.Fork()
+	const bin = "application/octet-stream"
+	p := payload{"text900", textish(rng, 900)}
+	n := 0
+	for _, c := range []coding{codings[0], codings[1], codings[2], codings[3], codings[4], codings[6], codings[10], codings[15], codings[20]} {
+		s := g.newScript(p, c, n%2 == 0, bin)
+		for _, cf := range cfgs {
+			for _, via := range []string{"h3-stream-read", "h3-stream-body"} {
+				k := reqKinds[0]
+				if n%4 == 3 {
+					k = reqKinds[1]
+				}
+				g.one(exchange{Stack: "h3", Cfg: cf, Req: k, S: s, Pat: readPats[n%len(readPats)], Via: via})
+				r.Count("h3stream.via=" + via)
+				n++
+			}
+		}
+		g.drop(s)
+	}
+}
